@@ -614,10 +614,14 @@ def drive(args, check_id, cfg, tier, seed, repo, tmp, t_start):
     # Violations: keep one per signature, confirm each by a fresh-process replay.
     confirmed = []
     seen = set()
+    tried = {}
     for sig, v, rpath in sorted(violations, key=lambda x: x[0]):
-        if sig in seen or len(confirmed) >= 3:
+        # One confirmed replay per signature; if a candidate's replay does not
+        # reproduce (a run whose outcome the simulator does not fully control),
+        # the same signature found by another worker is tried, up to four.
+        if sig in seen or len(confirmed) >= 3 or tried.get(sig, 0) >= 4:
             continue
-        seen.add(sig)
+        tried[sig] = tried.get(sig, 0) + 1
         if not rpath or not os.path.exists(rpath):
             harness_errors.append("violation %s without replay file" % sig)
             continue
@@ -652,7 +656,10 @@ def drive(args, check_id, cfg, tier, seed, repo, tmp, t_start):
             harness_errors.append("violation %s found but its replay file %s does not reproduce it (%s): %s" % (
                 sig, dst, detail, v["message"][:1500]))
             continue
+        seen.add(sig)
         confirmed.append((sig, v, dst, exact))
+    # A signature that was confirmed through a later candidate is no error.
+    harness_errors = [h for h in harness_errors if not any(h.startswith("violation %s found" % s) for s in seen)]
 
     cov["violations_found"] = [dict(signature=s, replay=p, replay_identical=e) for s, _, p, e in confirmed]
     write_evidence(check_id, tier, seed, cov, wall, len(confirmed), meta["assumptions"])
